@@ -43,7 +43,7 @@ def build(op, kinds):
 def patterns(tier):
     base = ["pv", "pe", "sx", "st"]
     out = []
-    maxfull = 4 if tier == "quick" else 6
+    maxfull = 4 if tier == "quick" else 5
     for n in range(0, maxfull + 1):
         for ks in itertools.product(base, repeat=n):
             out.append(ks)
